@@ -1,7 +1,8 @@
 #!/bin/bash
 # tools/seeded.sh <Cxx> <worktree> <demo-relative-path> "<demo command run in worktree>"
 # Verifies a seeded change in its worktree (demo fails with it, passes without), stores it under
-# /verif/seeded/<Cxx>-<n>/, applies it to /repo, runs ./check <Cxx> quick, undoes it.
+# /verif/seeded/<Cxx>-<n>/ and runs ./check <Cxx> quick against the worktree (VERIF_REPO mode);
+# an optional 5th argument lists further checks to run against it.
 set -u
 id="$1"; wt="$2"; demo="$3"; cmd="$4"
 export GOFLAGS=-mod=mod GOPROXY=off GOSUMDB=off GOTOOLCHAIN=local
@@ -21,9 +22,13 @@ pk=$(git diff --name-only -- . ":(exclude)$demo" | xargs -n1 dirname | sort -u |
 mv "$wt/$demo" /tmp/.demo_aside.$$ 2>/dev/null
 go test -vet=off -count=1 $pk 2>&1 | tail -5 | tee "$dst/pkg_tests.txt"
 mv /tmp/.demo_aside.$$ "$wt/$demo" 2>/dev/null
-echo "== apply to /repo and run the check"
-cd /repo && git apply "$dst/patch.diff" || { echo APPLY-FAILS; exit 1; }
+echo "== run the check against the worktree (alternate-repo mode of ./check: /repo and /verif/evidence stay untouched)"
+export VERIF_REPO="$wt" VERIF_BUILD="/verif/.build-alt-$id"
 (cd /verif && ./check "$id" quick) > "$dst/check_quick.txt" 2>&1; c=$?
-git -C /repo checkout -- . ; git -C /repo status --short | head -3
 grep -E "^VIOLATION|signature=|^SUMMARY|^KNOWN|^ERROR" "$dst/check_quick.txt" | cut -c1-260 | head -12
 echo "check exit=$c  (stored in $dst)"
+for other in $5; do
+  (cd /verif && VERIF_BUILD="/verif/.build-alt-$id" ./check "$other" quick) > "$dst/check_quick_$other.txt" 2>&1; echo "also $other exit=$?"
+  grep -E "signature=|^SUMMARY" "$dst/check_quick_$other.txt" | cut -c1-200 | head -4
+done
+rm -rf "/verif/.build-alt-$id"
